@@ -30,6 +30,9 @@ Outcome(G, c) ==
     [] c.op = "edges"    -> [ret |-> G.E]
     [] c.op = "sources"  -> [ret |-> {e[1] : e \in G.E}]
     [] c.op = "sccs"     -> [ret |-> GSCCs(G)]
+    \* compute_SCCs is a generator: the caller may take only the first k components and abandon it (any(...), next(...),
+    \* a break).  The reference value is the full partition; TraceGraph requires k distinct classes of it.
+    [] c.op = "sccs_some" -> [ret |-> GSCCs(G)]
     [] c.op = "rev"      -> [ret |-> GReverse(G)]
     [] c.op = "sub"      -> [ret |-> GInduced(G, c.X)]
     [] c.op = "clone"    -> [ret |-> G]
@@ -39,7 +42,7 @@ Effect(G, c) ==
     [] c.op = "add_edge" /\ <<c.s, c.d>> \notin G.E -> [V |-> G.V \cup {c.s, c.d}, E |-> G.E \cup {<<c.s, c.d>>}]
     [] OTHER -> G
 MakesObject(op) == op \in {"rev", "sub", "clone"}
-IsQuery(op) == op \in {"reach", "next", "nodes", "edges", "sources", "sccs", "rev", "sub", "clone"}
+IsQuery(op) == op \in {"reach", "next", "nodes", "edges", "sources", "sccs", "sccs_some", "rev", "sub", "clone"}
 
 \* ---- the state machine
 Init == pool = <<>> /\ hist = <<>>
@@ -62,6 +65,7 @@ Calls == {[op |-> "add_node", v |-> v] : v \in Nodes}
          \cup {[op |-> "next", v |-> v] : v \in Nodes}
          \cup {[op |-> o] : o \in {"nodes", "edges", "sources", "sccs", "rev", "clone"}}
          \cup {[op |-> "sub", X |-> X] : X \in SUBSET Nodes}
+         \cup {[op |-> "sccs_some", k |-> k] : k \in 0..2}
 Next == \/ \E V \in SUBSET Nodes, E \in SUBSET (Nodes \X Nodes) : New(V, E)
         \/ \E g \in Objs, c \in Calls : Call(g, c)
         \/ \E g \in Objs : Drop(g)
